@@ -89,6 +89,17 @@ type chist struct {
 	obsMu  sync.Mutex
 	obsSet map[string]bool
 	obsGen int
+	inCommit    atomic.Bool  // a goroutine is inside Restoration.Commit
+	inWatchList atomic.Int64 // goroutines inside Store.WatchList
+	tagMu  sync.Mutex
+	tags   []string
+}
+
+// tag may be called from any goroutine; flushed into the run by the main goroutine.
+func (h *chist) tag(t string) {
+	h.tagMu.Lock()
+	h.tags = append(h.tags, t)
+	h.tagMu.Unlock()
 }
 
 var concType = &pbresource.Type{Group: "demo", GroupVersion: "v1", Kind: "artist"}
@@ -193,7 +204,7 @@ func (t *cthread) step() {
 		}
 		h.add(hop{tid: t.tid, call: c, ret: r, kind: "w", presented: res.Version, key: resKey(id), ok: err == nil, epoch: ep, stored: stored,
 			line: fmt.Sprintf("w %s %s %s", encRes(logged), hx.EncS(res.Version), out)})
-		h.run.Tag("conc:write-" + out)
+		h.tag("conc:write-" + out)
 	case n < 53: // delete
 		id := t.pickID()
 		ki := t.info(id)
@@ -207,7 +218,7 @@ func (t *cthread) step() {
 		out := errEnum(err)
 		h.add(hop{tid: t.tid, call: c, ret: r, kind: "d", presented: v, key: resKey(id), ok: err == nil, epoch: ep,
 			line: fmt.Sprintf("d %s %s %s", encID(id), hx.EncS(v), out)})
-		h.run.Tag("conc:delete-" + out)
+		h.tag("conc:delete-" + out)
 	case n < 80: // read
 		id := t.pickID()
 		if t.r.Chance(50) {
@@ -235,7 +246,7 @@ func (t *cthread) step() {
 			out = "err"
 		}
 		h.add(hop{tid: t.tid, call: c, ret: r, kind: "r", key: resKey(id), read: res, line: fmt.Sprintf("r %s %s", encID(id), out)})
-		h.run.Tag("conc:read-" + strings.SplitN(out, " ", 2)[0])
+		h.tag("conc:read-" + strings.SplitN(out, " ", 2)[0])
 	case n < 93: // list
 		q := query{g: concType.Group, k: concType.Kind, part: hx.Pick(t.r, []string{"default", "p1", "*"}), ns: hx.Pick(t.r, []string{"default", "*"})}
 		if t.r.Chance(30) {
@@ -252,7 +263,7 @@ func (t *cthread) step() {
 			t.learn(x)
 		}
 		h.add(hop{tid: t.tid, call: c, ret: r, kind: "l", line: fmt.Sprintf("l %s %s", q.enc(), out)})
-		h.run.Tag("conc:list")
+		h.tag("conc:list")
 	default: // list by owner
 		o := clone(t.keys[0])
 		o.Uid = hx.Pick(t.r, []string{"u1", "u2"})
@@ -264,7 +275,7 @@ func (t *cthread) step() {
 			out = "err"
 		}
 		h.add(hop{tid: t.tid, call: c, ret: r, kind: "lo", line: fmt.Sprintf("lo %s %s", encID(o), out)})
-		h.run.Tag("conc:list-by-owner")
+		h.tag("conc:list-by-owner")
 	}
 }
 
@@ -279,6 +290,24 @@ func (h *chist) restore(tid int, r *hx.RNG, snap []*pbresource.Resource) {
 		y.Generation = strconv.FormatInt(h.uniq.Add(1), 10)
 		rs = append(rs, y)
 	}
+	// let the observer catch up first (it is about to be force-closed and must not lose commits):
+	// once it has seen this marker write it has seen every earlier commit
+	mid := &pbresource.ID{Type: concType, Tenancy: &pbresource.Tenancy{Partition: "default", Namespace: "default"}, Name: "zy", Uid: "m"}
+	mres := &pbresource.Resource{Id: mid, Generation: strconv.FormatInt(h.uniq.Add(1), 10)}
+	if cur, err := h.store.Read(mid); err == nil {
+		mres.Version = cur.Version
+	}
+	mc := h.now()
+	mstored, err := h.be.WriteCAS(bg, mres)
+	mr := h.now()
+	if err != nil {
+		panic(err)
+	}
+	h.add(hop{tid: tid, call: mc, ret: mr, kind: "w", presented: mres.Version, key: resKey(mid), ok: true, stored: mstored, epoch: int(h.epoch.Load()),
+		line: fmt.Sprintf("w %s %s ok", encRes(mstored), hx.EncS(mres.Version))})
+	for deadline := time.Now().Add(10 * time.Second); time.Now().Before(deadline) && !h.observed(evKey(mstored, false)); {
+		time.Sleep(200 * time.Microsecond)
+	}
 	c := h.now()
 	rst, err := h.store.Restore()
 	if err != nil {
@@ -289,11 +318,13 @@ func (h *chist) restore(tid int, r *hx.RNG, snap []*pbresource.Resource) {
 			panic(err)
 		}
 	}
+	h.inCommit.Store(true)
 	rst.Commit()
+	h.inCommit.Store(false)
 	rt := h.now()
 	h.epoch.Add(1)
 	h.add(hop{tid: tid, call: c, ret: rt, kind: "restore", line: "restore " + encRows(rs)})
-	h.run.Tag("conc:restore")
+	h.tag("conc:restore")
 	h.startObserver()
 }
 
@@ -376,7 +407,9 @@ func (h *chist) watcher(tid int, r *hx.RNG, wg *sync.WaitGroup) {
 	cw := &cwatch{q: q}
 	cw.epoch0 = int(h.epoch.Load())
 	cw.call = h.now()
+	h.inWatchList.Add(1)
 	w, err := h.store.WatchList(q.typ(), q.ten(), q.pfx)
+	h.inWatchList.Add(-1)
 	cw.ret = h.now()
 	cw.epoch1 = int(h.epoch.Load())
 	if err != nil {
@@ -393,7 +426,7 @@ func (h *chist) watcher(tid int, r *hx.RNG, wg *sync.WaitGroup) {
 	for {
 		if limit == 0 {
 			cw.closedBy = "limit"
-			h.run.Tag("conc:watch-closed-early")
+			h.tag("conc:watch-closed-early")
 			return
 		}
 		if h.stop.Load() && w.VerifC18WouldBlock() {
@@ -410,7 +443,7 @@ func (h *chist) watcher(tid int, r *hx.RNG, wg *sync.WaitGroup) {
 		case errors.Is(err, storage.ErrWatchClosed):
 			cw.evs = append(cw.evs, sev{kind: 'c'})
 			cw.closedBy = "restore"
-			h.run.Tag("conc:watch-force-closed")
+			h.tag("conc:watch-force-closed")
 			return
 		default:
 			panic(err)
@@ -440,6 +473,115 @@ func (h *chist) watcher(tid int, r *hx.RNG, wg *sync.WaitGroup) {
 		}
 		cw.evs = append(cw.evs, e)
 	}
+}
+
+// waitOrStuck waits for the group; false if it is still not done after d.
+func waitOrStuck(wg *sync.WaitGroup, d time.Duration) bool {
+	done := make(chan struct{})
+	go func() { wg.Wait(); close(done) }()
+	select {
+	case <-done:
+		return true
+	case <-time.After(d):
+		return false
+	}
+}
+
+// stuck reports a history whose goroutines do not come back (the store is abandoned, its goroutines leak).
+func (h *chist) stuck(run *hx.Run) {
+	h.mu.Lock()
+	var lines []string
+	for _, o := range h.ops {
+		lines = append(lines, fmt.Sprintf("hop %d %d %d %s", o.tid, o.call, o.ret, o.line))
+	}
+	h.mu.Unlock()
+	sig, desc := "deadlock:unclassified", "the goroutines of a concurrent history did not return within 20 s"
+	if h.inCommit.Load() && h.inWatchList.Load() > 0 {
+		sig = "deadlock:watchlist-vs-restore-commit"
+		desc = "Store.WatchList (holds the publisher lock, wants Store.mu for the snapshot) and Restoration.Commit (holds Store.mu, wants the publisher lock in RefreshTopic) block each other forever"
+	}
+	run.Tag("conc:" + sig)
+	if sigCount[sig] < 3 {
+		run.Violate(sig, desc, lines)
+	} else {
+		run.Tag("violation:" + sig)
+	}
+	sigCount[sig]++
+}
+
+// witnessDeadlock is a bounded stress aimed at known finding deadlock:watchlist-vs-restore-commit:
+// one goroutine restores in a loop, another opens and closes a watch in a loop (the last subscriber
+// leaving evicts the cached snapshot, so every WatchList takes a snapshot under the publisher lock).
+func witnessDeadlock(run *hx.Run) {
+	rounds := run.Scale(3, 10)
+	for round := 0; round < rounds; round++ {
+		st, err := inmem.NewStore()
+		if err != nil {
+			panic(err)
+		}
+		ctx, cancel := context.WithCancel(bg)
+		go st.Run(ctx)
+		var inCommit atomic.Bool
+		var inWatch, progress atomic.Int64
+		var stop atomic.Bool
+		var wg sync.WaitGroup
+		wg.Add(2)
+		go func() {
+			defer wg.Done()
+			for !stop.Load() {
+				r, err := st.Restore()
+				if err != nil {
+					panic(err)
+				}
+				inCommit.Store(true)
+				r.Commit()
+				inCommit.Store(false)
+				progress.Add(1)
+			}
+		}()
+		go func() {
+			defer wg.Done()
+			for !stop.Load() {
+				inWatch.Add(1)
+				w, err := st.WatchList(storage.UnversionedTypeFrom(concType), &pbresource.Tenancy{Partition: "default", Namespace: "default"}, "")
+				inWatch.Add(-1)
+				if err != nil {
+					panic(err)
+				}
+				w.Close()
+				progress.Add(1)
+			}
+		}()
+		deadlocked := false
+		last, lastChange := int64(-1), time.Now()
+		for begin := time.Now(); time.Since(begin) < 1500*time.Millisecond || time.Since(lastChange) > 500*time.Millisecond; {
+			time.Sleep(5 * time.Millisecond)
+			if p := progress.Load(); p != last {
+				last, lastChange = p, time.Now()
+			} else if time.Since(lastChange) > 3*time.Second {
+				deadlocked = inCommit.Load() && inWatch.Load() > 0
+				break
+			}
+		}
+		stop.Store(true)
+		run.Extra[fmt.Sprintf("deadlock_stress_round_%d_iterations", round)] = progress.Load()
+		if deadlocked {
+			run.Tag("case:witness-deadlock-hit")
+			sig := "deadlock:watchlist-vs-restore-commit"
+			if sigCount[sig] < 3 {
+				run.Violate(sig, "stress: Store.WatchList (publisher lock → Store.mu) and Restoration.Commit (Store.mu → publisher lock) block each other forever",
+					[]string{"# stress witness: goroutine 1 loops Store.Restore()+Commit(), goroutine 2 loops Store.WatchList()+Close()"})
+			}
+			sigCount[sig]++
+			cancel() // the two goroutines stay blocked; the store is abandoned
+			run.Case("witness-deadlock", true)
+			return
+		}
+		waitOrStuck(&wg, 5*time.Second)
+		cancel()
+	}
+	run.Tag("case:witness-deadlock-not-hit")
+	run.Case("witness-deadlock", true)
 }
 
 func concurrentHistory(run *hx.Run, r *hx.RNG, idx int) {
@@ -495,7 +637,10 @@ func concurrentHistory(run *hx.Run, r *hx.RNG, idx int) {
 		go h.watcher(100+k, r.Fork(uint64(1000+k)), &wwg)
 	}
 	close(start)
-	wg.Wait()
+	if !waitOrStuck(&wg, 20*time.Second) {
+		h.stuck(run)
+		return
+	}
 
 	// sentinel: once the observer has seen it, every earlier commit has been dispatched to every buffer
 	sid := &pbresource.ID{Type: concType, Tenancy: &pbresource.Tenancy{Partition: "default", Namespace: "default"}, Name: "zz", Uid: "s"}
@@ -520,14 +665,16 @@ func concurrentHistory(run *hx.Run, r *hx.RNG, idx int) {
 		run.Tag("conc:publisher-not-quiescent")
 	}
 	h.stop.Store(true)
-	wwg.Wait()
+	if !waitOrStuck(&wwg, 20*time.Second) {
+		h.stuck(run)
+		return
+	}
 	// final listing pins the final state
 	fq := query{g: concType.Group, k: concType.Kind, part: "*", ns: "*"}
 	c = h.now()
 	rs, _ := be.List(bg, storage.EventualConsistency, fq.typ(), fq.ten(), "")
 	rt = h.now()
 	h.add(hop{tid: 99, call: c, ret: rt, kind: "l", line: fmt.Sprintf("l %s %s", fq.enc(), encRows(rs))})
-	time.Sleep(50 * time.Microsecond)
 
 	// ---- emit
 	sort.Slice(h.ops, func(i, j int) bool { return h.ops[i].call < h.ops[j].call })
@@ -564,6 +711,11 @@ func concurrentHistory(run *hx.Run, r *hx.RNG, idx int) {
 		sigCount[sig]++
 	}
 	h.monitors(obs, viol)
+	h.tagMu.Lock()
+	for _, t := range h.tags {
+		run.Tag(t)
+	}
+	h.tagMu.Unlock()
 	run.Case(strings.Join(lines, "\n"), len(h.ops) > 8)
 }
 
@@ -690,10 +842,10 @@ func (h *chist) monitors(obs []sev, viol func(sig, desc string)) {
 			switch {
 			case cw.epoch0 == cw.epoch1 && payloadEpoch[e.res.Generation] < cw.epoch0:
 				viol("watch:pre-restore-event-after-snapshot", "an event committed before a restore was delivered to a watcher opened after the restore")
-				h.run.Tag("conc:pre-restore-event")
+				h.tag("conc:pre-restore-event")
 			case s <= bound:
 				viol("watch:stale-event-after-snapshot", "an event committed before the snapshot was taken was delivered after EndOfSnapshot (version regress)")
-				h.run.Tag("conc:stale-event")
+				h.tag("conc:stale-event")
 			}
 			last, lastIdx = s, i
 			delivered = append(delivered, s)
@@ -751,16 +903,32 @@ func (h *chist) monitors(obs []sev, viol func(sig, desc string)) {
 }
 
 func concurrentPart(run *hx.Run) {
+	witnessDeadlock(run)
 	n := run.Scale(150, 1700)
 	procs := []int{1, 2, 4, 16}
 	prev := runtime.GOMAXPROCS(0)
+	var total, slowest time.Duration
+	slow := 0
 	for i := 0; i < n; i++ {
 		if i%25 == 0 {
 			p := procs[(i/25)%len(procs)]
 			runtime.GOMAXPROCS(p)
 			run.Tag(fmt.Sprintf("conc:gomaxprocs=%d", p))
 		}
+		t0 := time.Now()
 		concurrentHistory(run, run.RNG.Fork(uint64(1_000_000+i)), i)
+		d := time.Since(t0)
+		total += d
+		if d > slowest {
+			slowest = d
+		}
+		if d > time.Second {
+			slow++
+		}
 	}
 	runtime.GOMAXPROCS(prev)
+	run.Extra["concurrent_histories"] = n
+	run.Extra["concurrent_total_ms"] = total.Milliseconds()
+	run.Extra["concurrent_slowest_ms"] = slowest.Milliseconds()
+	run.Extra["concurrent_histories_over_1s"] = slow
 }
